@@ -50,7 +50,7 @@ class Check(HCheck):
         sp = [Space(Cfg("never"), ops, 5 if thorough else 4, name="edits/never")]
         # single resolution queries as letters: "resolve X; edit; resolve X" with X the last
         # query before and the first after the edit (a one-entry memo is only visible then)
-        rops = [al.resolve(p) for p in (A, Ax, Axy, Ab, Awx)] + [al.create(A), al.create(Ax), al.create(C1), al.delete(0), al.delete(1), al.rmprefix(Ax), al.addprefix(Axy, 0), al.move(Ax, 0), al.page(Axy), al.rule(A, "path1"), al.unrule(A)]
+        rops = [al.resolve(p) for p in (A, Ax, Axy, Ab, Awx)] + [al.create(A), al.create(Ax), al.create(C1), al.delete(0), al.delete(1), al.rmprefix(Ax), al.addprefix(Axy, 0), al.move(Ax, 0), al.page(Axy), al.rule(A, "path1"), al.unrule(A), al.clear("never")]
         sp.append(Space(Cfg("never"), rops, 4 if thorough else 3, roots=[al.R0, (al.create(A), al.create(Ax))], name="resolve-edit-resolve/never", dedup=False))
         ops2 = [
             al.page(Ax),
